@@ -6,6 +6,7 @@ not constructible: the library's own validators define the domain."""
 import datetime
 import enum
 import inspect
+import re
 
 import attr
 
@@ -376,6 +377,20 @@ def _neighbours_lazy(obj, wide, depth, text):
     return out
 
 
+def _flag_enum_of(obj, attr_name):
+    """The enumeration class a set-valued attrs field is validated against (deep_iterable of instance_of), or None."""
+    cls = type(obj)
+    if not attr.has(cls):
+        return None
+    for f in attr.fields(cls):
+        if f.name == attr_name:
+            mv = getattr(f.validator, 'member_validator', None)
+            t = getattr(mv, 'type', None)
+            if isinstance(t, type) and issubclass(t, enum.Enum):
+                return t
+    return None
+
+
 def _is_optional(obj, attr_name):
     cls = type(obj)
     if not attr.has(cls):
@@ -671,7 +686,7 @@ def array_events(arr, wide=False):
     return ev
 
 
-def inplace_variants(obj, wide=False, max_items=4):
+def inplace_variants(obj, wide=False, max_items=4, partial=False):
     """[(tag, rebuilt_thunk, inplace_thunk)].  One value reached by two histories:
     (a) rebuilt():        new objects constructed all the way up (what the neighbourhood exploration does);
     (b) inplace(warm):    a deep copy of obj, optionally *used first* (warm(copy) - e.g. composed, fingerprinted,
@@ -756,6 +771,30 @@ def inplace_variants(obj, wide=False, max_items=4):
                     assign_changed(c, new, fields)
                     return c
                 out.append(('=%s' % tag, mk, inplace_top))
+                fname = re.split(r'[=.\[]', tag, 1)[0]
+                if partial and any(a == fname for a, _ in fields):
+                    # the one field alone is assigned: what a constructor would have completed (a dependent default)
+                    # or refused stays as it was - a state only an in-place edit reaches
+                    def inplace_only(warm=None, mk=mk, fname=fname):
+                        new = mk()
+                        c = fresh(warm)
+                        setattr(c, fname, copy.deepcopy(getattr(new, fname)))
+                        return c
+                    out.append(('=%s!only' % tag, mk, inplace_only))
+            if partial:
+                # an empty flag set: every member the field's validator names is switched on in place
+                for a, kw in fields:
+                    v = getattr(obj, a, None)
+                    e = _flag_enum_of(obj, a) if isinstance(v, (set, frozenset)) and not v else None
+                    for m in (list(e) if e is not None else []):
+                        def rebuilt_flag(a=a, m=m, v=v):
+                            return rebuild(obj, a, type(v)([m]))
+
+                        def inplace_flag(warm=None, a=a, m=m, v=v):
+                            c = fresh(warm)
+                            setattr(c, a, type(v)([m]))
+                            return c
+                        out.append(('=%s=set:toggle:%s!only' % (a, m.name), rebuilt_flag, inplace_flag))
     for label, get, nested, up in holders:
         nfields = _init_fields(nested)
         if not nfields:
